@@ -258,3 +258,10 @@ Record rq_key := { k_name : list N; k_extras : list (list N); k_specs : list (li
 Definition req_key (r : requirement) : rq_key :=
   {| k_name := Names.canon_name (q_name r); k_extras := rq_setrepr (q_extras r); k_specs := rq_setrepr (map rq_ckey (q_specs r));
      k_url := q_url r; k_marker := option_map format_marker (q_marker r) |}.
+
+(* decidable equality of keys (used by the observation r.eqh: "the hashes are equal") *)
+Fixpoint rq_lists_eqb (a b : list (list N)) : bool :=
+  match a, b with [], [] => true | x :: a', y :: b' => rq_str_eqb x y && rq_lists_eqb a' b' | _, _ => false end.
+Definition rq_key_eqb (x y : rq_key) : bool :=
+  rq_str_eqb (k_name x) (k_name y) && rq_lists_eqb (k_extras x) (k_extras y) && rq_lists_eqb (k_specs x) (k_specs y)
+  && rq_opt_eqb (k_url x) (k_url y) && rq_opt_eqb (k_marker x) (k_marker y).
